@@ -135,22 +135,9 @@ pub fn unit_tokens() -> Vec<Token> {
         DoubleExclamationMark, AtSign, CaretAt, PGSquareRoot, PGCubeRoot, Arrow, LongArrow, HashArrow, HashLongArrow, AtArrow, ArrowAt,
         HashMinus, AtQuestion, AtAt, Question, QuestionAnd, QuestionPipe,
     ];
-    fn _exhaustive(t: &Token) {
-        match t {
-            EOF | Word(_) | Number(..) | Char(_) | SingleQuotedString(_) | DoubleQuotedString(_) | TripleSingleQuotedString(_)
-            | TripleDoubleQuotedString(_) | DollarQuotedString(_) | SingleQuotedByteStringLiteral(_) | DoubleQuotedByteStringLiteral(_)
-            | TripleSingleQuotedByteStringLiteral(_) | TripleDoubleQuotedByteStringLiteral(_) | SingleQuotedRawStringLiteral(_)
-            | DoubleQuotedRawStringLiteral(_) | TripleSingleQuotedRawStringLiteral(_) | TripleDoubleQuotedRawStringLiteral(_)
-            | NationalStringLiteral(_) | EscapedStringLiteral(_) | UnicodeStringLiteral(_) | HexStringLiteral(_) | Whitespace(_)
-            | Placeholder(_) | CustomBinaryOperator(_) => {}
-            Comma | DoubleEq | Eq | Neq | Lt | Gt | LtEq | GtEq | Spaceship | Plus | Minus | Mul | Div | DuckIntDiv | Mod | StringConcat
-            | LParen | RParen | Period | Colon | DoubleColon | Assignment | SemiColon | Backslash | LBracket | RBracket | Ampersand | Pipe
-            | Caret | LBrace | RBrace | RArrow | Sharp | Tilde | TildeAsterisk | ExclamationMarkTilde | ExclamationMarkTildeAsterisk
-            | DoubleTilde | DoubleTildeAsterisk | ExclamationMarkDoubleTilde | ExclamationMarkDoubleTildeAsterisk | ShiftLeft | ShiftRight
-            | Overlap | ExclamationMark | DoubleExclamationMark | AtSign | CaretAt | PGSquareRoot | PGCubeRoot | Arrow | LongArrow
-            | HashArrow | HashLongArrow | AtArrow | ArrowAt | HashMinus | AtQuestion | AtAt | Question | QuestionAnd | QuestionPipe => {}
-        }
-    }
+    // completeness of this list against `enum Token` is an inventory obligation of C04
+    // (translator: `token_variants`), not a compile-time match: a new token variant must not stop
+    // the harness of all twenty properties from building
     v
 }
 
